@@ -82,6 +82,9 @@ def _make_series(rng, kind, base, n):
     return out
   if kind == 'big':
     return [_round(1e6 * (1 + v) + rng.gauss(0, 100)) for v in base]
+  if kind == 'tiny':
+    # shares of a huge total: absolute tolerances swallow everything
+    return [(2 + v + rng.gauss(0, 0.5)) * 1e-9 for v in base]
   raise ValueError(kind)
 
 
@@ -105,20 +108,32 @@ def _base(rng, n):
 
 
 KINDS = ('good', 'good', 'good', 'near', 'noise', 'break', 'ar', 'const',
-         'ints', 'nan', 'big')
+         'ints', 'nan', 'big', 'tiny', 'tiny')
 
 
 def _gen_par(rng):
   par = {'n_test': rng.choice((1, 2, 3, 4, 7, 12)), 'iroas': 1.0}
   if rng.random() < 0.5:
-    par['sig_level'] = rng.choice((0.5, 0.8, 0.9, 0.95, 0.99))
+    par['sig_level'] = rng.choice((0.5, 0.8, 0.9, 0.95, 0.975, 0.99, 0.9001))
   if rng.random() < 0.5:
-    par['power_level'] = rng.choice((0.5, 0.8, 0.9, 0.99))
+    par['power_level'] = rng.choice((0.5, 0.8, 0.9, 0.99, 0.805, 0.8004))
   if rng.random() < 0.4:
-    par['flevel'] = rng.choice((0.9, 0.95, 0.99))
+    par['flevel'] = rng.choice((0.9, 0.95, 0.99, 0.995, 0.9003))
   if rng.random() < 0.5:
-    par['min_corr'] = rng.choice((0.8, 0.9, 0.95, 0.99))
+    par['min_corr'] = rng.choice((0.8, 0.9, 0.95, 0.99, 0.905))
   return par
+
+
+def _near_par(rng, par):
+  """Parameters that differ from `par` only slightly (beyond the 2nd or 3rd
+  decimal of one or two levels): what a coarsely keyed cache would confuse."""
+  out = dict(par)
+  defaults = {'sig_level': 0.9, 'power_level': 0.8, 'flevel': 0.9,
+              'min_corr': 0.8}
+  for k in rng.sample(sorted(defaults), rng.choice((1, 1, 2))):
+    v = out.get(k, defaults[k])
+    out[k] = round(min(v + rng.choice((0.004, 0.0004, 0.00004)), 0.9999), 6)
+  return out
 
 
 def _gen_read(rng, bias_verdict):
@@ -164,8 +179,15 @@ def generate(rng, tier, profile='default'):
     # changed" test would confuse
     for _ in range(rng.choice((0, 1, 1, 2))):
       src = list(series[rng.randrange(first, len(series))])
-      how = rng.choice(('perm', 'rev', 'same_ends', 'same_mean'))
-      if how == 'perm':
+      how = rng.choice(('perm', 'rev', 'same_ends', 'same_mean', 'near_dup',
+                        'near_dup'))
+      if how == 'near_dup':
+        # equal up to a relative 1e-6 .. 1e-9 in a few points: what a tolerant
+        # "unchanged" test (allclose, rounding) would confuse
+        for i in rng.sample(range(n), rng.choice((1, 2, 3))):
+          if not isinstance(src[i], str):
+            src[i] = src[i] * (1 + rng.choice((1e-6, 1e-7, 1e-9))) + 1e-12
+      elif how == 'perm':
         rng.shuffle(src)
       elif how == 'rev':
         src.reverse()
@@ -241,8 +263,11 @@ def generate(rng, tier, profile='default'):
   # always finish by reading the joint verdict and one more quantity
   ops.append({'op': 'read', 'o': 0, 'q': 'tests_ok'})
   ops.append({'op': 'read', 'o': 0, 'q': rng.choice(READ_QS[2:10])})
-  par2 = _gen_par(rng)
-  par2['n_test'] = rng.choice((par['n_test'], par['n_test'], 1, 2, 5))
+  if rng.random() < 0.5:
+    par2 = _near_par(rng, par)
+  else:
+    par2 = _gen_par(rng)
+    par2['n_test'] = rng.choice((par['n_test'], par['n_test'], 1, 2, 5))
   return {'machine': NAME, 'par': par, 'par2': par2, 'series': series,
           'kinds': kinds, 'init_y': init_y, 'ops': ops}
 
